@@ -537,7 +537,7 @@ fn target_key(q: u64, uc: u64, rk: u64) -> [u8; 32] {
 
 fn mk_peer(i: u64) -> PeerId {
     let mut b = vec![0x00u8, 0x24, 0x08, 0x01, 0x12, 0x20];
-    let mut r = Rng::new(0xC16_0000 + i);
+    let mut r = Rng::derive(0xC16_0000 + i);
     for _ in 0..4 {
         b.extend(r.next().to_le_bytes());
     }
